@@ -105,6 +105,20 @@ impl Driver {
         let next_wakeup = (self.next_wakeup != SimTime::MAX).then_some(self.next_wakeup);
         (slots, next_wakeup)
     }
+
+    /// Verification hook (only with `--cfg petrichorit_des_verif`): the ids of the
+    /// registered entries of every pending slot, in queue and registration order.
+    pub(crate) fn verif_entry_ids(&self) -> Vec<(SimTime, Vec<usize>)> {
+        self.queue
+            .pending
+            .borrow()
+            .iter()
+            .map(|slot| {
+                let ids = slot.entrys.borrow().iter().map(|entry| entry.id).collect();
+                (slot.time, ids)
+            })
+            .collect()
+    }
 }
 
 impl TimerQueue {
